@@ -161,6 +161,12 @@ func (w *World) RunHarness(pkg, fn string, opts *RunOpts, pool *SolverPool, work
 			defer wg.Done()
 			solver := pool.New()
 			ex := NewExec(w.ld, solver, w.hooks, opts)
+			ex.emit = func(np []int) {
+				mu.Lock()
+				queue = append(queue, workItem{np})
+				mu.Unlock()
+				cond.Broadcast()
+			}
 			for {
 				mu.Lock()
 				for len(queue) == 0 && inflight > 0 && fatal == nil {
